@@ -728,6 +728,49 @@ theorem C01_stream_object_partial (b : Nat) (hb : 1 ≤ b) (objid gen : Int) (v 
   rw [nextobjectP_done _ _ (by simp)]
   simp [ObjParser.resultOf]
 
+open PdfVerif.Gen.Filters in
+/-- The same for the proved spelled family: `objid gen obj` and the dictionary spelled with every freedom of
+    `ObjSpelling.wf` / `wf` (separators incl. comments, minimal delimiters, `#xx` names, nested values, references).
+    The token hypothesis of `C01_stream_object_partial` is discharged (`StreamSeam.head_tokens`, from `lex_tree`);
+    `_partial`: `hc` — that the scanner is in a `Complete` state after the dictionary — remains a hypothesis. -/
+theorem C01_stream_object_spelled_partial (b : Nat) (hb : 1 ≤ b) (o : ObjSpelling) (ho : o.wf)
+    (es : List (Bytes × SObj)) (ws eol0 d tail eol rest : Bytes)
+    (hc : Complete (modeAfter (StreamSeam.headBytes o)) = true)
+    (hdict : norm (valueOf o.body) = .dict es) (hlen : ObjParser.lookupLength es = some (.int d.length))
+    (hne : ws ≠ []) (hws : ∀ c ∈ ws, isSPC c = true) (heol0 : eol0 = [10] ∨ eol0 = [13, 10])
+    (htail : Filters.findSub ENDSTREAM_MARK (tail ++ ENDSTREAM_MARK) = some tail.length)
+    (heol : Filters.EolOk eol rest) :
+    ObjParser.getobjS b (intValue [] o.ds)
+      ((StreamSeam.headBytes o ++ ws) ++ kwStream ++ eol0 ++
+        (d ++ (tail ++ ENDSTREAM_MARK ++ ([32] ++ kwEndobj) ++ eol ++ rest)))
+      = .ok (.stream es d) :=
+  C01_stream_object_partial b hb (intValue [] o.ds) (intValue [] o.gs) (valueOf o.body) es (StreamSeam.headBytes o)
+    ws eol0 d tail eol rest hc (StreamSeam.head_tokens o ho) (clean_tree o.body ho.2.2.2.2.2.2.2.2.1) hdict hlen hne hws
+    heol0 htail heol
+
+/-- Non-vacuity of the spelled form: `12 0 obj<</Length 4>>` is a well-formed head whose scanner state is
+    `Complete`, whose value is a dictionary with a direct `/Length 4`. -/
+example : ∃ o : ObjSpelling, o.wf ∧ Complete (modeAfter (StreamSeam.headBytes o)) = true ∧
+    (norm (valueOf o.body)).show = (SObj.dict [([76, 101, 110, 103, 116, 104], .int 4)]).show := by
+  refine ⟨ObjSpelling.mk [49, 50] [.ws 32] [48] [.ws 32] []
+    (.dict [] [([.raw 76, .raw 101, .raw 110, .raw 103, .raw 116, .raw 104], [.ws 32], .int [] [52] [])] []) [], ?_,
+    by decide +kernel, by decide +kernel⟩
+  have hnil : sepOK [] := by intro i hi; cases hi
+  have hws : sepOK [.ws 32] := by intro i hi; simp at hi; subst hi; simp [SepItem.ok, isGapByte]
+  have hk : nameOK [NameItem.raw 76, .raw 101, .raw 110, .raw 103, .raw 116, .raw 104] := by
+    intro i hi; simp at hi
+    rcases hi with rfl | rfl | rfl | rfl | rfl | rfl <;> exact ⟨by simp [NameItem.ok]; decide +kernel, trivial⟩
+  have hi4 : wf (.int [] [52] []) := by
+    simp only [wf, wfE, digitsOK]
+    exact ⟨Or.inl rfl, ⟨by decide, by decide, by decide⟩, hnil⟩
+  have hd : wf (.dict [] [([.raw 76, .raw 101, .raw 110, .raw 103, .raw 116, .raw 104], [.ws 32], .int [] [52] [])] []) := by
+    simp only [wf, wfE, wfEntriesE, valueEntries, keysOf]
+    refine ⟨hnil, ⟨hk, hws, by simp, hi4, trivial⟩, hnil, by simp, ?_⟩
+    intro k hk'; simp [nameValue, NameItem.value] at hk'; subst hk'; decide +kernel
+  refine ⟨⟨by decide, by decide, by decide⟩, hws, by simp, ⟨by decide, by decide, by decide⟩, hws, by simp, hnil, ?_,
+    hd, rfl, hnil⟩
+  intro _ rest; simp [bytesOf, isDW]
+
 /-- Non-vacuity: `5 0 obj<</Length 4>>` LF `stream` CRLF `a)` NUL `e` LF `endstream endobj` LF `x`, buffer size 3. -/
 example :
     Complete (modeAfter [53, 32, 48, 32, 111, 98, 106, 60, 60, 47, 76, 101, 110, 103, 116, 104, 32, 52, 62, 62]) = true ∧
